@@ -106,6 +106,18 @@ def run(tier):
             cases.append((cid, ("const K: u128 = %s;\n" % lit).encode(), "hex-digits")); valid.append(cid)
         cid = "hx%d" % kb; kb += 1
         cases.append((cid, ("const C: char8 = '\\x4%s';\nconst S: []char8 = \"\\x%s%s\";\n" % (d_, "7" if d_ in "89abcdefABCDEF" else d_, d_)).encode(), "hex-digits")); valid.append(cid)
+    # every byte value, raw, inside a string literal, inside a character literal and between tokens (control characters,
+    # DEL, bytes above 0x7f that are not UTF-8): the lexer model decides which are invalid lexemes
+    for b_ in range(256):
+        for form, tag in ((b'const S: []char8 = "he' + bytes([b_]) + b'lo";\n', "s"), (b"const C: char8 = '" + bytes([b_]) + b"';\n", "c"), (b"const K: i32 = 1 " + bytes([b_]) + b" ;\n", "o")):
+            cases.append(("rb%d%s" % (b_, tag), form, "raw-bytes"))
+    # many tokens that carry a payload (integers, identifiers, strings) in a small source: the payload tables grow
+    # independently of the token table
+    for cnt in (1000, 1023, 1024, 1025, 1200, 5000):
+        cid = "pl%d" % cnt; valid.append(cid)
+        cases.append((cid, ("const T: [%d]i32 = [%s];\n" % (cnt, ", ".join(str(i % 97) for i in range(cnt)))).encode(), "payload-tokens"))
+        cid = "ps%d" % cnt; valid.append(cid)
+        cases.append((cid, ("fn f()\n{\n%s}\n" % "".join("\tprint!(\"s%d\");\n" % i for i in range(cnt))).encode(), "payload-tokens"))
     # a trailing comma closes every list that may have one (parameters, arguments, array and structure literals;
     # the last member of a structure may also do without): well-formed, must be accepted
     for tc in ["fn add(a: i32, b: i32,) -> i32\n{\n\treturn: a + b\n}\n", "extern fn puts(text: []char8,);\n", "fn add(a: i32, b: i32) -> i32\n{\n\treturn: a + b\n}\nfn main()\n{\n\tvar r = add(1, 2,);\n}\n",
@@ -153,7 +165,7 @@ def run(tier):
     impl = C.run_harness("delta-total", payloads, ck.work + "/debug", timeout=3000)
     implr = C.run_harness("delta-total", payloads, ck.work + "/release", timeout=3000, binary=C.PVH_RELEASE)
     # the lexer model decides which inputs contain an invalid lexeme
-    prio = ("literal-spellings", "boundary-integers", "cast-operands", "unicode-strings", "hex-digits", "trailing-commas")      # the deterministic families first
+    prio = ("literal-spellings", "boundary-integers", "cast-operands", "unicode-strings", "hex-digits", "trailing-commas", "raw-bytes")      # the deterministic families first
     small = [(c[0], c[1]) for c in sorted(cases, key=lambda c: 0 if c[2] in prio else 1) if len(c[1]) <= 4096 and c[2] != "tokens"][: (3500 if tier == "quick" else 60000)]
     model = C.run_model([("lex-delta", cid, b.hex() if b else "()") for cid, b in small], ck.work + "/lexmodel", timeout=3000)
     # node accounting: Model/DeltaNodes.v on the token kinds the real lexer produced
